@@ -32,7 +32,7 @@ func violKey(vs []tsViolation) string {
 func c10TS(c *Ctx, r *report.Run, w *ws.Workspace, units []rt.JobUnit) error {
 	var tsUnits []rt.JobUnit
 	for _, ju := range units {
-		if u := w.Unit(ju.Name); u != nil && len(u.Spec.Files) == 1 {
+		if u := w.Unit(ju.Name); u != nil && oneServiceFile(u.Spec) && !hasTag(u.Spec, "genonly") {
 			tsUnits = append(tsUnits, ju)
 		}
 	}
